@@ -14,6 +14,22 @@ CHECKS = {
    text="Same specification and replay as C01 with the C03 observations: after every step every stored row's hash (harness's own SHA-256d), height, work, cumulative work and the six received fields are compared through the table, service.GetHeaderByHash and the two HTTP routes; TLC checks DerivedFieldsExact and the action property Immutable; histories include close/reopen.",
    technique="explicit TLA+ spec (Chain.tla: DerivedFieldsExact, Immutable) checked by TLC; TLC-generated histories replayed into the real stack with boundary field values",
    note=TB + " Field values are boundary + seeded random values, not all 2^32."),
+ "C02": dict(cat="model_checking", ref="DESIGN.md §5 C02",
+   text="Verify/Verdict are operators of Chain.tla; TLC checks VerdictsExact on every reachable store and the action property VerdictsTrackChain across every relabelling step; for every DISTINCT reachable store (shared merkle-root class so that stale siblings share root+height with longest blocks) TLC emits the complete verdict table (every root x height -1..tip+excess+2 x excess 0,1,3; singletons, the full list and a duplicated list) and the harness posts each request to /chain/merkleroot/verify on the real stack, comparing per-item verdict, block hash, order and the aggregate.",
+   technique="explicit TLA+ spec (Chain.tla: Verdict/Verify, VerdictsTrackChain) checked by TLC; TLC-emitted complete answer tables for every distinct store replayed against the real HTTP endpoint",
+   note=TB + " Stores of up to 4 (quick) / 5 (thorough) headers; request lists beyond the three shapes are not enumerated."),
+ "C04": dict(cat="model_checking", ref="DESIGN.md §5 C04",
+   text="Every read endpoint is an operator of Chain.tla; for every distinct reachable store TLC emits the complete table of answers (by hash/state for every id incl. unknown, by-height windows, tips, every ordered pair for ancestors, every subset of size<=3 for common ancestor) and the harness sends each query through gin over the real SQL stack, comparing status, error class and body; a row-level digest of the headers table is compared before/after all reads.",
+   technique="explicit TLA+ spec (Chain.tla read operators) + TLC distinct-state enumeration; complete expected-answer tables replayed against the real HTTP API",
+   note=TB + " Queries that involve a header whose parent arrived after it (height restarts at 1) are not asserted: the property text does not define them."),
+ "C08": dict(cat="model_checking", ref="DESIGN.md §5 C08",
+   text="MerklePage/WalkFrom are operators of Chain.tla; TLC checks WalkCoversLongestOnce and PagesBounded on every reachable store and WalkSurvivesTipGrowth across every step; for every distinct store the complete page table (batch 0..tip+3 x every stored root, no key, unknown key) is compared with GET /chain/merkleroot on the real stack (content, order, last key, size, total, 404/409).",
+   technique="explicit TLA+ spec (Chain.tla: MerklePage, WalkCoversLongestOnce) checked by TLC; complete page tables for every distinct store replayed against the real endpoint",
+   note=TB + " Because a page is a function of (store, batch, key) only, interleaved walks are covered by checking every page on every store plus the TLC action property."),
+ "C13": dict(cat="model_checking", ref="DESIGN.md §5 C13",
+   text="Locator/LocatorHeights/GetHeaders are operators of Chain.tla; TLC checks LocatorShape and GetHeadersIsNextSegment on every reachable store; for every distinct store the locator and the getheaders answers for every locator set of size<=2 (both orders) and the full set x every stop (zero, every id, unknown) are compared with LatestHeaderLocator / LocateHeaders / LocateHeadersGetHeaders on the real stack; a 4100-header chain with stale branches exercises the 2000 cap and the doubling steps against the same operators.",
+   technique="explicit TLA+ spec (Chain.tla: Locator, GetHeaders) checked by TLC; complete answer tables replayed against the real service; long-chain vectors validated by TLC",
+   note=TB + " Empty locators are not asserted (protocol meaning is ambiguous). Stop hash = genesis is a listed known finding."),
 }
 
 NA = []
